@@ -277,8 +277,20 @@ impl<'input> GrmtoolsSectionParser<'input> {
             Some(m) => {
                 let num_span = Span::new(i + m.start(), i + m.end());
                 let num_str = &self.src[num_span.start()..num_span.end()];
-                // If the above regex matches we expect this to succeed.
-                let num = str::parse::<u64>(num_str).unwrap();
+                // The regex only guarantees a non-empty run of digits: the value may
+                // still not fit a `u64`.
+                let num = match str::parse::<u64>(num_str) {
+                    Ok(num) => num,
+                    Err(_) => {
+                        return Err(HeaderError {
+                            kind: HeaderErrorKind::ConversionError(
+                                "u64",
+                                "number too large to fit in target type",
+                            ),
+                            locations: vec![num_span],
+                        });
+                    }
+                };
                 let val = Setting::Num(num, num_span);
                 i = self.parse_ws(num_span.end());
                 Ok((val, i))
